@@ -2,6 +2,7 @@
   C20 — Per-lens Gaussian priors act on the lens' own realised parameters only.
 -/
 import HierArc.Proofs.LensDet
+import HierArc.Proofs.LensKeys
 
 namespace HierArc.C20
 open HierArc HierArc.Lens
@@ -182,6 +183,58 @@ theorem prior_on_realised {mk : ℝ → ℝ → ℝ → ℝ} {cfg : LensCfg ℝ}
   obtain ⟨lam, κ, x, gpl, _, _, _, _, hprior, ⟨ld, kd, sA, sA', sB, sB', h1, h2, h3, _, _⟩, _⟩ :=
     singlePre_spec h
   exact ⟨by rw [hprior, prior_formula], ld, kd, sA, sA', sB, sB', h1, h2, h3⟩
+
+/-! ### which parameters a lens has is decided by its configuration -/
+
+theorem sum_map_filter_of_zero {β : Type} (l : List β) (f : β → ℝ) (P : β → Bool)
+    (h : ∀ x ∈ l, P x = false → f x = 0) : (l.map f).sum = ((l.filter P).map f).sum := by
+  induction l with
+  | nil => simp
+  | cons a t ih =>
+    have iht := ih (fun x hx => h x (List.mem_cons_of_mem _ hx))
+    by_cases hp : P a = true
+    · simp [List.filter_cons, hp, iht]
+    · have hp' : P a = false := by simpa using hp
+      simp [List.filter_cons, hp', iht, h a (List.mem_cons_self) hp']
+
+/-- **a listed parameter the lens does not have adds nothing, and which parameters the lens has is decided by its
+    configuration alone**: the realised parameters of every successful evaluation are exactly `Lens.realisedKeys cfg hy`
+    (`lambda_mst`, `gamma_ppn`; `gamma_in` / `log_m2l` when sampled; `gamma_pl` when the lens has its own slope or the
+    slope is sampled globally; the anisotropy parameters of its model) — so the prior term is that of the list restricted
+    to the lens' own parameters, whatever else is named in it (e.g. a `gamma_pl` prior on a lens without a slope). -/
+theorem prior_only_own_parameters {mk : ℝ → ℝ → ℝ → ℝ} {cfg : LensCfg ℝ} {hy : Hyper ℝ}
+    {ddt dd dLum : ℝ} {beta : Option ℝ} {ext : Ext ℝ} {fuel : ℕ} {s s' : St ℝ} {out : SingleOut ℝ}
+    (h : singlePre mk cfg hy ddt dd dLum beta ext fuel s = .ok (out, s')) :
+    out.prior = priorLogL (cfg.priors.filter (fun p => decide (p.1 ∈ realisedKeys cfg hy))) out.kwargsParam := by
+  obtain ⟨hp, ld, kd, sA, sA', sB, sB', h1, h2, h3⟩ := prior_on_realised h
+  rw [hp, prior_formula]
+  apply sum_map_filter_of_zero
+  intro p _ hnot
+  have hnot' : p.1 ∉ realisedKeys cfg hy := by simpa using hnot
+  apply priorTerm_absent
+  rw [h3]
+  have hk : ¬ p.1 ∈ (mergeDict ld kd).map Prod.fst := by
+    rw [keys_mergeDict, Lens.drawLens_keys fuel h1, Lens.drawAniso_keys fuel h2]
+    simpa [realisedKeys] using hnot'
+  have hh : Dict.has (mergeDict ld kd) p.1 ≠ true := fun hc => hk ((has_iff_mem_keys _ _).1 hc)
+  cases hg : Dict.get? (mergeDict ld kd) p.1 with
+  | none => rfl
+  | some v => exact absurd (by simp [Dict.has, hg]) hh
+
+/-- the fallback slope 2 that a lens without its own slope hands to the data likelihood is NOT one of its parameters:
+    a `gamma_pl` prior on such a lens adds nothing -/
+theorem gamma_pl_prior_needs_a_slope {mk : ℝ → ℝ → ℝ → ℝ} {cfg : LensCfg ℝ} {hy : Hyper ℝ}
+    {ddt dd dLum : ℝ} {beta : Option ℝ} {ext : Ext ℝ} {fuel : ℕ} {s s' : St ℝ} {out : SingleOut ℝ} (μ σ : ℝ)
+    (hpr : cfg.priors = [("gamma_pl", μ, σ)]) (hidx : cfg.dist.gammaPlIndex = none)
+    (hglob : cfg.dist.gammaPlGlobalSampling = false)
+    (h : singlePre mk cfg hy ddt dd dLum beta ext fuel s = .ok (out, s')) : out.prior = 0 := by
+  rw [prior_only_own_parameters h, hpr]
+  have : ("gamma_pl" ∈ realisedKeys cfg hy) = False := by
+    simp only [realisedKeys, lensKeys, anisoKeys, hidx, hglob, eq_iff_iff, iff_false]
+    intro hc
+    simp only [List.mem_append, Option.isSome_none, Bool.false_or, Bool.false_eq_true, if_false] at hc
+    split_ifs at hc <;> simp at hc
+  simp [List.filter, this, no_prior_list]
 
 /-- **lens-local**: the single evaluation of a lens reads no prior list but its own — two
     configurations that differ only in their prior lists hand identical arguments to the data
